@@ -10,7 +10,7 @@ LEVEL = "other"
 LEVEL_TEXT = ("Proved for every presence pattern of the optional keys (concrete dictionary structure, opaque leaves): configure_v2 treats omitted optional sections as empty ones, fills "
               "grid.module/grid.filename from the forcing section, replaces empty tracker/release sections, and raises KeyError (turned into SystemExit(3) by configure) when a mandatory "
               "section is missing; configure_v1 produces exactly the version-2 dictionary that the documented key correspondence prescribes (time, grid/forcing incl. gridfile precedence "
-              "and subgrid, state variables, tracker, release incl. continuous mode, ibm, output incl. encodings), for 19 patterns. NOT proved (bounded): that the YAML and TOML parsers "
+              "and subgrid, state variables, tracker, release incl. continuous mode, ibm, output incl. encodings), for 37 patterns. NOT proved (bounded): that the YAML and TOML parsers "
               "return the same mapping, wildcard expansion, the warm-start block, and that equal effective configurations give equal output (argued from C14.4 determinism).")
 LEVEL_NOTE = "yaml/tomli/pathlib external; list-valued entries fixed to one representative list; equality of the three runs' outputs only by the bounded sweep (3 scenarios)"
 TECHNIQUE = "contract-based deductive verification by symbolic execution over all presence patterns (opaque leaves) + bounded three-spelling runs"
